@@ -197,8 +197,9 @@ where
     }
     pub fn scan(&self) -> impl Iterator<Item = Result<ScanItem>> + '_ {
         let xref_offset = self.backend.locate_xref_offset().unwrap();
-        let slice = self.backend.read(self.start_offset .. xref_offset).unwrap();
-        let mut lexer = Lexer::with_offset(slice, 0);
+        // the startxref value, like every offset, is relative to the header
+        let slice = self.backend.read(self.start_offset .. self.start_offset + xref_offset).unwrap();
+        let mut lexer = Lexer::with_offset(slice, self.start_offset);
         
         fn skip_xref(lexer: &mut Lexer) -> Result<()> {
             while lexer.next()? != "trailer" {
